@@ -237,6 +237,9 @@ func enumCaptureShapes() []*gen.Program {
 				// and what it bound goes with it
 				mk(B, gen.Loop{Min: 0, Max: -1, Form: "atleast", Body: gen.Seq{Items: []gen.Node{cap("x", gen.Seq{Items: []gen.Node{gen.Loop{Min: 0, Max: 1, Form: "maybe", Body: A}}})}}}, gen.Loop{Min: 0, Max: 1, Form: "maybe", Body: gen.Seq{Items: []gen.Node{gen.BackRef{Name: "x"}, C}}})
 				mk(B, gen.Loop{Min: 0, Max: -1, Form: "atleast", Name: "r", Body: gen.Seq{Items: []gen.Node{cap("x", gen.Seq{Items: []gen.Node{gen.Loop{Min: 0, Max: -1, Form: "atleast", Body: A}}})}}}, C)
+				// a capture whose body calls the subroutine it stands in: the same name is open at several call levels
+				mk(gen.SubDef{Name: "s", Body: []gen.Node{cap("x", gen.Seq{Items: []gen.Node{A, gen.Loop{Min: 0, Max: 1, Form: "maybe", Body: gen.SubCall{Name: "s"}}}}), gen.BackRef{Name: "x"}}}, gen.Loop{Min: 0, Max: 1, Form: "maybe", Body: C})
+				mk(gen.SubDef{Name: "s", Body: []gen.Node{A, gen.Loop{Min: 0, Max: -1, Form: "atleast", Name: "r", Body: gen.Seq{Items: []gen.Node{cap("x", gen.Or{Alts: []gen.Node{gen.SubCall{Name: "s"}, C}})}}}, B}})
 				// two names that differ only in letter case are two names: a back-reference to the unbound one fails
 				mk(cap("x", A), gen.Or{Alts: []gen.Node{gen.Seq{Items: []gen.Node{cap("X", B)}}, C}}, gen.BackRef{Name: "X"})
 				// empty capture and its back-reference
@@ -263,7 +266,7 @@ func C02(r *drv.Run) {
 	if !quick(r) {
 		nprog, ntext = 100000, 16
 	}
-	r.Rule = "capture-heavy generator: `= name` bindings inside first alternatives that then fail, inside maybe/at most/at least 0 iterations that get abandoned, inside recursive subroutines, followed by back-references; inputs are near misses derived from the program; a quarter of the programs under a random amount clause (skip / take / top / last: expected = that window of the reference's list); plus an exhaustive family of 14 capture shapes (one with two names differing only in letter case) (4 of them inside named loops, directly / under an inner unnamed loop / under an inner named loop) x 4^3 literal choices x all texts over {a,b} up to length 4; and 4 shapes with an OPTIONAL capture on the path tried last (last alternative, lazy loop body, lazy optional) x 3^3 literals x all texts over {a,b,c} up to length 4. Oracle: reference backtracker with a persistent environment gives the exact expected variable map of every match (spans AND flat variables must equal). Non-trivial = expected match carries >= 1 binding AND the VM backtracked; distinct by (program, text)."
+	r.Rule = "capture-heavy generator: `= name` bindings inside first alternatives that then fail, inside maybe/at most/at least 0 iterations that get abandoned, inside recursive subroutines, followed by back-references; inputs are near misses derived from the program; a quarter of the programs under a random amount clause (skip / take / top / last: expected = that window of the reference's list); plus an exhaustive family of 16 capture shapes (one with two names differing only in letter case) (4 of them inside named loops, directly / under an inner unnamed loop / under an inner named loop) x 4^3 literal choices x all texts over {a,b} up to length 4; and 4 shapes with an OPTIONAL capture on the path tried last (last alternative, lazy loop body, lazy optional) x 3^3 literals x all texts over {a,b,c} up to length 4. Oracle: reference backtracker with a persistent environment gives the exact expected variable map of every match (spans AND flat variables must equal). Non-trivial = expected match carries >= 1 binding AND the VM backtracked; distinct by (program, text)."
 	r.Assumptions = []string{
 		"named-loop variable maps are compared after dropping iteration entries that hold nothing (vore opens the map of an iteration before it knows whether the iteration will run)",
 		"reference matcher semantics as in C01 (word-anchor boundary cases are don't-care)",
@@ -271,6 +274,10 @@ func C02(r *drv.Run) {
 	}
 	shapes := enumCaptureShapes()
 	texts := allTexts("ab", 4)
+	// a few longer texts: recursion three levels deep, repeated halves
+	for _, t := range []string{"aaaaaa", "aaaaaaaa", "aaabbb", "aabbaabb", "abaaba", "aabaab", "bbbbbb", "ababab"} {
+		texts = append(texts, []byte(t))
+	}
 	r.Exec(len(shapes), drv.ExecOpts{Batch: 50}, func(i int) *drv.Item {
 		p := shapes[i]
 		cs := &c01Case{prog: p, src: gen.RenderProgram(p), texts: texts}
